@@ -18,7 +18,6 @@ import (
 	"istio.io/istio/pilot/pkg/model"
 	"istio.io/istio/pkg/config/host"
 	"istio.io/istio/pkg/log"
-	"istio.io/istio/pkg/maps"
 	"istio.io/istio/pkg/util/sets"
 )
 
@@ -66,7 +65,7 @@ func findWaypointResources(node *model.Proxy, push *model.PushContext) ([]model.
 	workloads := push.WorkloadsForWaypoint(key)
 	serviceInfos := push.ServicesForWaypoint(key)
 
-	waypointServices := &waypointServices{}
+	var candidates []*model.Service
 	for _, s := range serviceInfos {
 		hostName := host.Name(s.Service.Hostname)
 		svc, ok := push.ServiceIndex.HostnameAndNamespace[hostName][s.Service.Namespace]
@@ -78,15 +77,22 @@ func findWaypointResources(node *model.Proxy, push *model.PushContext) ([]model.
 			log.Warnf("DYNAMIC_DNS is supported only for MESH_EXTERNAL services; skipping waypoint service %s/%s", svc.Attributes.Namespace, svc.Hostname)
 			continue
 		}
+		candidates = append(candidates, svc)
+	}
+
+	waypointServices := &waypointServices{}
+	// ServicesForWaypoint is unsorted, and services from different namespaces (ServiceEntry allows arbitrary hostnames)
+	// may share a hostname. We keep one service per hostname; go through them in creation order so that the oldest
+	// one wins, rather than whichever happened to come last.
+	for _, svc := range model.SortServicesByCreationTime(candidates) {
+		if _, f := waypointServices.services[svc.Hostname]; f {
+			continue
+		}
 		if waypointServices.services == nil {
 			waypointServices.services = map[host.Name]*model.Service{}
 		}
-		waypointServices.services[hostName] = svc
-	}
-
-	unorderedServices := maps.Values(waypointServices.services)
-	if len(serviceInfos) > 0 {
-		waypointServices.orderedServices = model.SortServicesByCreationTime(unorderedServices)
+		waypointServices.services[svc.Hostname] = svc
+		waypointServices.orderedServices = append(waypointServices.orderedServices, svc)
 	}
 	return workloads, waypointServices
 }
